@@ -61,7 +61,7 @@ def _eq(r, key, got, want, extra=""):
 
 def _call(r, key, fn):
     try:
-        return True, fn()
+        return True, r.twice(key, fn)
     except Exception as e:  # the property says these inputs are computed, not rejected
         r.fail(key + ":raises", "%s: %s" % (type(e).__name__, e))
         return False, None
